@@ -82,7 +82,7 @@ def check(tree, rep, tier='quick', seed=0):
     ip = cat.interp
     sched = load_data('tax_schedules.json')
     maxinc = Fraction(sched['max_income'])
-    n_pieces = n_status = 0
+    n_pieces = n_status = n_unfoldable = 0
     for y in cat.years:
         rel = f'habutax/forms/ty{y}/f1040_figure_tax.py'
         if not tree.exists(rel):
@@ -111,6 +111,7 @@ def check(tree, rep, tier='quick', seed=0):
         rep.ob('D0', f'{y}/figure_tax-is-a-function-of-its-arguments', not impure,
                f'the tax helpers of {y} keep state between calls: {impure[:3]}; the tax for an income could depend on what was looked up before', rel)
         if impure:
+            n_unfoldable += 1
             continue
         f1040 = cat.find(y, '1040')
         fs = f1040.input_map().get('filing_status') if f1040 else None
@@ -262,8 +263,9 @@ def check(tree, rep, tier='quick', seed=0):
                 ok = isinstance(amt, E) and amt.op == 'v' and isinstance(st, E) and st.op == 'i' and st.args[0] == '1040.filing_status'
                 rep.ob('D4', f'{d.key}/arguments', ok, f'{d.key} calls figure_tax({amt!r}, {st!r}); expected (a line value, the Form 1040 filing status input)', d.where,
                        sample={'line': d.key, 'amount': repr(amt), 'status': repr(st)})
-    rep.floor('statuses x years folded', n_status, 15)
-    rep.floor('elementary pieces and break points compared', n_pieces, 50000)
+    rep.floor('years analysed (folded or reported as stateful)', n_status // 5 + n_unfoldable, 3)
+    rep.floor('statuses x years folded', n_status, 15 - 5 * n_unfoldable)
+    rep.floor('elementary pieces and break points compared', n_pieces, 16000 * (3 - n_unfoldable))
     rep.floor('figure_tax call sites', n_calls, 9)
 
 
